@@ -53,9 +53,13 @@ def rand_val(rng, want):
     if r < 0.08:
         return rng.choice([["str"], ["int", 65], ["none"], ["list", bytes(rng.getrandbits(8) for _ in range(want)).hex()]])
     if r < 0.16:
-        # an array cdata of exactly the slice's byte length (other lengths are not generated: the released
-        # code compares with an uninitialised length, so their outcome is not defined)
-        return ["cdata", bytes(rng.getrandbits(8) for _ in range(want)).hex(), rng.choice(["char", "short"])]
+        # an array cdata: carries its byte length (equal -> stored, different -> ValueError, since feea9b6)
+        k = want if rng.random() < 0.7 else max(0, want + rng.choice([-1, 1, 2]))
+        return ["cdata", bytes(rng.getrandbits(8) for _ in range(k)).hex(), rng.choice(["char", "short"])]
+    if r < 0.22:
+        # a pointer cdata: no length of its own, the slice length is trusted; at least `want` bytes behind it
+        return ["cdataptr", bytes(rng.getrandbits(8) for _ in range(want + rng.choice([0, 1, 3]))).hex(),
+                rng.choice(["char", "int"])]
     k = want if rng.random() < 0.75 else max(0, want + rng.choice([-1, 1, 2, -2]))
     data = bytes(rng.getrandbits(8) for _ in range(k)).hex()
     return [rng.choice(["bytes", "bytes", "bytearray", "memoryview", "array"]), data]
@@ -135,14 +139,19 @@ def gen_mm(rng):
 def generate(ctx):
     rng = ctx.rng
     big = ctx.tier_search == "thorough"
-    cases = [gen_hist(rng) for _ in range(700 if not big else 8000)]
-    cases += [gen_fb(rng) for _ in range(250 if not big else 2500)]
-    cases += [gen_mm(rng) for _ in range(400 if not big else 4000)]
+    # the size rules come first: they are checked (and reported) before any memory is touched
+    cases = []
     for what, ctype, ln, isz in [("array", "int[]", 5, 4), ("array", "char[]", 7, 1), ("array", "struct s3[]", 2, 3),
                                  ("array", "int[]", 0, 4), ("pointer", "int *", None, 4), ("pointer", "struct s3 *", None, 3),
-                                 ("castptr", "void *", None, -1), ("castptr", "double *", None, 8), ("prim", "int", None, 4)]:
-        for size in [None, 0, 1, 3, 8, -1, -5]:
+                                 ("castptr", "void *", None, -1), ("castptr", "double *", None, 8), ("prim", "int", None, 4),
+                                 ("frombuf", "char[]", 9, 1), ("frombuf", "short[]", 8, 2), ("frombuf", "int[2]", 8, 4),
+                                 ("frombuf", "char *", 6, 1)]:
+        total = (ln or 1) * max(isz, 1) if what in ("array", "frombuf") else max(isz, 1)
+        for size in [None, 0, 1, total - 1, total, total + 3, 8, -1, -5]:
             cases.append(dict(kind="size", what=what, ctype=ctype, len=ln, isz=isz, size=size))
+    cases += [gen_hist(rng) for _ in range(700 if not big else 8000)]
+    cases += [gen_fb(rng) for _ in range(250 if not big else 2500)]
+    cases += [gen_mm(rng) for _ in range(400 if not big else 4000)]
     # design witnesses
     cases.append(dict(kind="hist", backing="cdata", init="0a0b0c0d0e0f1011", off=2, n=4, ops=[
         ["get", ["i", -1]], ["get", ["s", -3, None, None]], ["set", ["s", 1, 3, None], ["bytearray", "0102"]],
@@ -150,6 +159,10 @@ def generate(ctx):
         ["set", ["i", -4], ["bytes", "09"]], ["get", ["s", 3, 1, None]], ["set", ["s", 3, 1, None], ["bytes", ""]],
         ["get", ["s", None, None, 0]]]))
     cases.append(dict(kind="mm", mem="0102030405", dest="cdata", src="cdata", d=1, s=0, n=3))
+    # witness of the fixed finding cdata_slice_source (feea9b6), and its neighbours
+    cases.append(dict(kind="hist", backing="cdata", init="6162636465666768", off=0, n=8, ops=[
+        ["set", ["s", 0, 4, None], ["cdata", "5758595a", "char"]], ["set", ["s", 0, 4, None], ["cdata", "5758595a31", "char"]],
+        ["set", ["s", 4, 6, None], ["cdataptr", "313233", "char"]], ["set", ["s", 0, 4, None], ["cdata", "41414242", "short"]]]))
     return cases
 
 
@@ -196,10 +209,13 @@ def oracle_step(ref, op):
     if kind == "get":
         return ["bytes", bytes(ref[sl]).hex()]
     v = op[2]
-    if v[0] not in ("bytes", "bytearray", "memoryview", "array", "cdata"):
+    if v[0] not in ("bytes", "bytearray", "memoryview", "array", "cdata", "cdataptr"):
         return ["err", "TypeError"]
     tmp = bytearray(ref)
-    tmp[sl] = bytes.fromhex(v[1])
+    data = bytes.fromhex(v[1])
+    if v[0] == "cdataptr":          # cffi's extension: as many bytes as the slice has are taken from the pointer
+        data = data[:len(range(*sl.indices(len(ref))))]
+    tmp[sl] = data
     if len(tmp) != len(ref):
         return ["err", "ValueError"]
     ref[:] = tmp
@@ -237,6 +253,8 @@ def val_lit(v):
         return "(VBytes %s)" % zl(bytes.fromhex(v[1]))
     if v[0] in ("bytearray", "memoryview", "array", "cdata"):
         return "(VBuf %s)" % zl(bytes.fromhex(v[1]))
+    if v[0] == "cdataptr":
+        return "(VPtrSrc %s)" % zl(bytes.fromhex(v[1]))
     return "VOther"
 
 
@@ -276,10 +294,23 @@ def res_lit(o):
 # ------------------------------------------------------------------------------------------ evaluation
 def evaluate(ctx, cases):
     s = ctx.scratch()
-    out, p = s.run_worker("c19_worker.py", dict(cases=cases, types=[t[0] for t in FB_TYPES]), timeout=1200)
-    if out is None:
-        ctx.violation(cases[0], "C19 worker crashed (rc=%s): %s" % (p.returncode, (p.stderr or p.stdout)[-1500:]))
-        return
+    # step 1 (cheap, touches no memory): the size rules of ffi.buffer; step 2: everything else, in forked
+    # children so that a crash is attributed to one case
+    order = [i for i, c in enumerate(cases) if c["kind"] == "size"] + [i for i, c in enumerate(cases) if c["kind"] != "size"]
+    nsize = sum(1 for c in cases if c["kind"] == "size")
+    results = [None] * len(cases)
+    out = None
+    for part in (order[:nsize], order[nsize:]):
+        if not part:
+            continue
+        out, p = s.run_worker("c19_worker.py", dict(cases=[cases[i] for i in part], types=[t[0] for t in FB_TYPES],
+                                                    chunk=1 if len(part) <= 30 else 25), timeout=1800)
+        if out is None:
+            ctx.violation(cases[part[0]], "C19 worker crashed (rc=%s): %s" % (p.returncode, (p.stderr or p.stdout)[-1500:]))
+            return
+        for i, r in zip(part, out["results"]):
+            results[i] = r
+    out = dict(results=results, sizes=out["sizes"])
     for T, size in FB_TYPES:
         if out["sizes"].get(T) != size:
             ctx.obligation_broken("C19 type table: sizeof(%s) = %r, harness says %d" % (T, out["sizes"].get(T), size))
@@ -289,6 +320,9 @@ def evaluate(ctx, cases):
         ctx.hist("kind", c["kind"])
         if "error" in r:
             ctx.violation(c, "harness could not run the case: " + r["error"])
+            continue
+        if "crash" in r:
+            ctx.violation(c, "the interpreter died (signal/exit %s) while running this %s case" % (r["crash"], c["kind"]))
             continue
         if c["kind"] == "hist":
             init = bytes.fromhex(c["init"])
@@ -386,9 +420,25 @@ def evaluate(ctx, cases):
         else:   # ffi.buffer size rules
             o = r["out"]
             k = {"array": "(CArray (%d))" % (c["len"] or 0), "pointer": "CPointer", "castptr": "CPointer",
-                 "prim": "CNeither"}[c["what"]]
-            if c["size"] is not None and c["size"] >= 0 and c["what"] != "prim" and o != ["int", c["size"]]:
-                ctx.violation(c, "len(ffi.buffer(<%s>, %d)) gives %r" % (c["ctype"], c["size"], o))
+                 "prim": "CNeither", "frombuf": "CPointer" if c["ctype"].endswith("*") else None}[c["what"]]
+            if k is None:
+                nitems = int(c["ctype"].split("[")[1].rstrip("]") or 0) if c["ctype"].endswith("]") and \
+                    not c["ctype"].endswith("[]") else c["len"] // c["isz"]
+                k = "(CArray (%d))" % nitems
+            else:
+                nitems = c["len"] or 0
+            size = c["size"]
+            if c["what"] == "prim":
+                want = ["err", "TypeError"]
+            elif size is not None and size >= 0:
+                want = ["int", size]                                   # ffi.buffer(p, n) has exactly n bytes
+            elif k.startswith("(CArray"):
+                want = ["int", nitems * c["isz"]]                      # default: the whole array
+            else:
+                want = ["int", c["isz"]] if c["isz"] >= 0 else ["err", "TypeError"]   # default: one item
+            if o != want:
+                ctx.violation(c, "len(ffi.buffer(<%s %s>%s)) gives %r, expected %r"
+                              % (c["what"], c["ctype"], "" if size is None else ", %d" % size, o, want))
             lit = res_lit(o)
             if lit:
                 scalar.append(("buffer_size %s (%d) (-1) %s" % (k, c["isz"], opt(c["size"])), lit))
@@ -436,7 +486,9 @@ MANIFEST = dict(
     text="Proved for every memory, window, and operation history (any Python ints/None as bounds and steps, any right-hand "
          "side): outcomes through ffi.buffer equal those of the same history on a bytearray holding the window, the "
          "window afterwards equals that bytearray, nothing outside the window changes, lengths never change "
-         "(C19_buffer_history, C19_buffer_frame); from_buffer('T[]') has len//size items and 'T[k]' raises ValueError when "
+         "(C19_buffer_history, C19_buffer_frame); sources: bytes-like objects and array cdata (own byte length), pointer "
+         "cdata (length trusted: cffi's extension, specified separately); the spec is bytearray semantics minus "
+         "extended slices; from_buffer('T[]') has len//size items and 'T[k]' raises ValueError when "
          "too small; memmove leaves the old source bytes in the destination for every overlap, the rest unchanged.",
     note="Trusted: Coq kernel; hand model C19/Model.v and spec C19/Spec.v (both tied to the real objects by differential "
          "testing against CPython bytearrays); C11 memmove semantics; CPython's buffer protocol. Theorems closed under the "
